@@ -74,30 +74,32 @@ def implsOf (tr : String) : List (String × List String) :=
   | none => []
   | some l => (l.filter (fun x => x.1 == tr)).map (fun x => (x.2.1, x.2.2))
 
+/-- the list must have been derived: an underivable list FAILS the theorems below (as an untranslatable body fails its
+    `*_eq` theorem) instead of making them vacuous -/
 def implsKnown : Bool := Gen.Fns.trait_impls.isSome
 
 /-- the iterators implement `next` (and `size_hint` where the model has `len`) and NOTHING else: every other route through the
     `Iterator` API is the standard library's default in terms of `next` -/
 theorem iterator_impls_only_next :
-    (!implsKnown || implsOf "Iterator" ==
+    (implsKnown && implsOf "Iterator" ==
       [("EFIMemoryAreaIter", ["next", "size_hint"]), ("ElfSectionIter", ["next", "size_hint"]), ("ModuleIter", ["next"]),
        ("TagIter", ["next"])]) = true := by decide
 theorem exact_size_impls :
-    (!implsKnown || (implsOf "ExactSizeIterator" == [("EFIMemoryAreaIter", ["len"]), ("ElfSectionIter", ["len"])] &&
+    (implsKnown && (implsOf "ExactSizeIterator" == [("EFIMemoryAreaIter", ["len"]), ("ElfSectionIter", ["len"])] &&
       implsOf "DoubleEndedIterator" == [] && implsOf "FusedIterator" == [])) = true := by decide
 /-- which header kinds override `total_size` (the two structure headers return the declared word; the tag headers use the
     default `size_of + payload_len`) -/
 theorem header_impls :
-    (!implsKnown || implsOf "Header" ==
+    (implsKnown && implsOf "Header" ==
       [("BootInformationHeader", ["payload_len", "set_size", "total_size"]), ("DummyTestHeader", ["payload_len", "set_size"]),
        ("HeaderTagHeader", ["payload_len", "set_size"]), ("Multiboot2BasicHeader", ["payload_len", "set_size", "total_size"]),
        ("TagHeader", ["payload_len", "set_size"])]) = true := by decide
 /-- no tag type overrides `header` / `payload` / `as_bytes` / `as_ptr`: each `MaybeDynSized` impl defines exactly
     `BASE_SIZE` and `dst_len` -/
 theorem maybe_dyn_sized_impls_minimal :
-    (!implsKnown || (implsOf "MaybeDynSized").all (fun x => x.2 == ["const BASE_SIZE", "dst_len"])) = true := by decide
+    (implsKnown && (implsOf "MaybeDynSized").all (fun x => x.2 == ["const BASE_SIZE", "dst_len"])) = true := by decide
 theorem default_impls :
-    (!implsKnown || implsOf "Default" ==
+    (implsKnown && implsOf "Default" ==
       [("Builder", ["default"]), ("EFIBootServicesNotExitedTag", ["default"]), ("EndHeaderTag", ["default"]), ("EndTag", ["default"]),
        ("VBEControlInfo", ["default"]), ("VBEModeInfo", ["default"])]) = true := by decide
 
